@@ -3,6 +3,7 @@ from checks import alphwatchcommon
 
 
 def run(ctx):
+    alphwatchcommon.private_work(ctx)
     ctx.prove(families=("alphwatch",))
     alphwatchcommon.run_alphwatch(ctx, "c08")
     ctx.cov["rule"] = (
@@ -12,4 +13,8 @@ def run(ctx):
         "blocks old / future / between floors); pipe: the same behind the real fetchEvents; reobs: one re-observation request through "
         "the real handleObsvRequest (foreign contracts in the same tx, events of a second block, tx status of every kind, API errors at "
         "every call, heights at the boundary, young blocks, mainnet or not, mismatching attestations). distinct_nontrivial = cases where "
-        "model and implementation agree on every observable and the Spec holds on the implementation's result")
+        "model and implementation agree on every observable and the Spec holds on the implementation's result. Half of the poll cases and all "
+        "pipe cases get their heights from the real fetchHeight polling the fake node (heights go up and fall back; `height=` in a line is what "
+        "the node reported last, the finality clause is judged against it, `passed=` is what reached the event loop); transactions publish "
+        "bursts of 2-4 messages in one block (foreign then token-bridge sender, across page boundaries); attestations include near-miss "
+        "encodings (zero byte inside a string, leading/trailing space, case, byte after a NUL) judged with the contract's padding rule")
